@@ -65,3 +65,56 @@ func H_C04_gc() {
 	vAssert(vLiveBlocks() == 0, "every block returned after Close")
 	vReach("c04-gc-done")
 }
+
+// H_C04_visitor: user-managed memory; a Visitor runs on snapshot S while the writer, from inside the item callback,
+// deletes an item that was inserted after S was taken (a same-epoch delete: the node and item go to the access
+// barrier at once, no snapshot pins them). The range-split pivots come from the raw store, so such an item can be
+// one of them. The workers get to run after every later callback; the visitor's iterators refresh at rate 'vrate'.
+// Any access to a freed node or item is a trap.
+func H_C04_visitor() {
+	cfg, c := vConfig()
+	cfg.refreshRate = vBound("vrate")
+	db := NewWithConfig(cfg)
+	ws := vWriters(db, 1)
+	w := ws[0]
+	n := vBound("items")
+	var g vSetModel
+	for i := 0; i < n; i++ {
+		k := byte(10 + 7*i) // concrete ascending keys; the item born after the snapshot has a symbolic key
+		w.Put2(c.item(k, byte(i+1)))
+		g.put(int(k), c.val(byte(i+1)))
+	}
+	s, _ := db.NewSnapshot()
+	kx := vByte("kx", 0)
+	if w.Put2(c.item(kx, 9)) != nil {
+		vReach("item-born-after-snapshot")
+	}
+	shards := vRange("shards", 0, 1, vBound("maxshards"))
+	delAt := vRange("delat", 0, -1, n-1)
+	calls, nlog := 0, 0
+	cb := func(itm *Item, shard int) error {
+		k, v, ok := c.decode(itm.Bytes())
+		if !ok {
+			vFail("visitor item bytes have an unexpected shape")
+		}
+		vAssert(g.hasKV(k, v), "delivered item is visible in the snapshot")
+		nlog++
+		if calls == delAt {
+			if w.Delete(c.item(kx, 0)) {
+				vReach("deleted-during-visit")
+			}
+		}
+		if delAt >= 0 && calls >= delAt {
+			vQuiesce()
+		}
+		calls++
+		return nil
+	}
+	err := db.Visitor(s, cb, shards, 1)
+	vAssert(err == nil, "Visitor returns nil when no callback failed")
+	vAssert(nlog == g.count(), "every visible item is delivered exactly once")
+	s.Close()
+	db.Close()
+	vAssert(vLiveBlocks() == 0, "every block returned after Close")
+	vReach("c04-visitor-done")
+}
